@@ -100,6 +100,25 @@ def gen_cfgs(ctx, n):
         mid = ['f0'] + ['f1'] + ['f0'] * (1 + i % 2) + ['f1'] * (accum - 1) + ['s']
         cfg.ops = it + mid + it + ['f1', 'f0'] + ['f1'] * (accum - 1) + ['s'] + it
         cfgs.append(cfg)
+    # directed: a full state round trip on the live preconditioner while batch statistics are pending (between the
+    # micro-batches of a window; between backward and step() when the factors are updated in step()): nothing is dropped
+    for hook, accum in ((True, 2), (False, 1), (False, 2), (True, 3)):
+        cfg = kfacsim.Config(rng, world=rng.choice([1, 2]), hook=hook, accum=accum)
+        cfg.hyper_changes = []
+        cfg.cap_mb = 0.0
+        cfg.hyper['factor_update_steps'] = 1
+        it = ['f1'] * accum + ['s']
+        part = ['f1'] * (accum - 1 if hook else accum)
+        cfg.ops = it + part + ['Y'] + ['f1'] * (accum - len(part)) + ['s'] + it + part + ['Y'] + ['f1'] * (accum - len(part)) + ['s'] + it
+        cfgs.append(cfg)
+    # directed: several whole accumulation windows before one step (2*accum passes): every window is folded
+    for accum in (1, 2):
+        cfg = kfacsim.Config(rng, world=rng.choice([1, 2]), hook=True, accum=accum)
+        cfg.hyper_changes = []
+        cfg.cap_mb = 0.0
+        cfg.hyper['factor_update_steps'] = 1
+        cfg.ops = ['f1'] * accum + ['s'] + ['f1'] * (2 * accum) + ['s'] + ['f1'] * (3 * accum) + ['s'] + ['f1'] * accum + ['s']
+        cfgs.append(cfg)
     # directed: a hyper-parameter-only round trip on the live preconditioner (state without factors, default
     # compute_inverses=True) between inverse updates, while the factors are newer than the second-order data: nothing is
     # recomputed off schedule, nothing is communicated
@@ -129,7 +148,7 @@ def gen_cfgs(ctx, n):
             cfg.cap_mb = 0.0
             ops = ['f1'] * cfg.accum + ['s']
             for _ in range(rng.randrange(3, ctx.budget(9, 20))):
-                ops += ['f1'] * rng.randrange(1, cfg.accum + 2) + ['s']
+                ops += ['f1'] * rng.randrange(1, 2 * cfg.accum + 2) + ['s']      # (also several whole windows before one step)
         if rng.random() < 0.5:
             # constants only may be changed by a scheduler
             for j in range(rng.randrange(1, 3)):
